@@ -6,7 +6,7 @@
 //!   with one JSON object per line.
 //! * Gates: when switched on with the notification `verif/gating`, every background analysis
 //!   announces itself with `verif/reached` and waits until the client sends `verif/release` for
-//!   its version and phase. `verif/done` is sent when a background analysis has finished.
+//!   its document, version and phase. `verif/done` is sent when a background analysis has finished.
 
 use std::collections::HashSet;
 use std::io::{BufRead, Write};
@@ -27,7 +27,7 @@ pub(crate) enum Phase {
 #[derive(Default)]
 struct Gates {
     on: bool,
-    released: HashSet<(i32, Phase)>,
+    released: HashSet<(String, i32, Phase)>,
 }
 
 fn gates() -> &'static (Mutex<Gates>, Condvar) {
@@ -84,7 +84,7 @@ fn notify(connection: &Connection, method: &str, params: serde_json::Value) {
         }));
 }
 
-pub(crate) fn gate(connection: &Connection, version: i32, phase: Phase) {
+pub(crate) fn gate(connection: &Connection, uri: &str, version: i32, phase: Phase) {
     let (mutex, condvar) = gates();
     let mut g = mutex.lock().unwrap();
     if !g.on {
@@ -93,18 +93,18 @@ pub(crate) fn gate(connection: &Connection, version: i32, phase: Phase) {
     notify(
         connection,
         "verif/reached",
-        serde_json::json!({"version": version, "phase": format!("{phase:?}")}),
+        serde_json::json!({"uri": uri, "version": version, "phase": format!("{phase:?}")}),
     );
-    while g.on && !g.released.contains(&(version, phase)) {
+    while g.on && !g.released.contains(&(uri.to_string(), version, phase)) {
         g = condvar.wait(g).unwrap();
     }
 }
 
-pub(crate) fn done(connection: &Connection, version: i32) {
+pub(crate) fn done(connection: &Connection, uri: &str, version: i32) {
     notify(
         connection,
         "verif/done",
-        serde_json::json!({"version": version}),
+        serde_json::json!({"uri": uri, "version": version}),
     );
 }
 
@@ -125,7 +125,8 @@ pub(crate) fn handle_notification(not: &Notification) -> bool {
                 _ => Phase::Publish,
             };
             let version = not.params["version"].as_i64().unwrap_or(0) as i32;
-            mutex.lock().unwrap().released.insert((version, phase));
+            let uri = not.params["uri"].as_str().unwrap_or("").to_string();
+            mutex.lock().unwrap().released.insert((uri, version, phase));
             condvar.notify_all();
             true
         }
